@@ -115,31 +115,102 @@ class ExprMixin(object):
                 self.explorer.auto_fields.add("%s.%s:%r (inferred from its initialiser)" % (cname, field, ty))
         return ty
 
-    def infer_field_type(self, info, field):
-        """An attribute that no sidecar declares (e.g. one introduced by an edit): take its type from a literal
-        initialiser ``self.<field> = <constant>`` found in the class or its bases."""
+    def infer_field_type(self, info, field, depth=0):
+        """An attribute that no sidecar declares (e.g. one introduced by an edit): take its type from its initialisers
+        ``self.<field> = <expr>`` found in the class or its bases - literals, annotated parameters, conditional
+        expressions, arithmetic on those, constructor calls and annotated method results, other attributes of self.
+        ``None`` as one of the initialisers makes the type optional."""
         import ast as _ast
+        from .core import parse_type
+        found, saw_none = [], False
+
+        def static_type(v, fn):
+            if isinstance(v, _ast.Constant):
+                if isinstance(v.value, bool):
+                    return T_BOOL
+                if isinstance(v.value, float):
+                    return T_FLOAT
+                if isinstance(v.value, int):
+                    return T_INT
+                return None
+            if isinstance(v, _ast.List) and not v.elts:
+                return Ty("list", [T_ANY])
+            if isinstance(v, _ast.UnaryOp):
+                return static_type(v.operand, fn)
+            if isinstance(v, _ast.IfExp):
+                a, b = static_type(v.body, fn), static_type(v.orelse, fn)
+                if a is not None and b is not None:
+                    if a == b:
+                        return a
+                    if {a.kind, b.kind} == {"int", "float"}:
+                        return T_FLOAT
+                    return None
+                return a or b
+            if isinstance(v, _ast.BinOp):
+                a, b = static_type(v.left, fn), static_type(v.right, fn)
+                if a is None or b is None:
+                    return None
+                if a.kind == "float" or b.kind == "float" or isinstance(v.op, _ast.Div):
+                    return T_FLOAT if {a.kind, b.kind} <= {"int", "float"} else None
+                return a if a == b else None
+            if isinstance(v, _ast.Name):
+                for arg in fn.args.args + fn.args.kwonlyargs:
+                    if arg.arg == v.id and arg.annotation is not None:
+                        try:
+                            t = parse_type(_ast.unparse(arg.annotation))
+                        except VerifError:
+                            return None
+                        return t if t.kind in ("float", "int", "bool", "ref", "list") else None
+                return None
+            if isinstance(v, _ast.Attribute) and isinstance(v.value, _ast.Name) and v.value.id == "self" and depth < 2:
+                t = REG.field_type([c.name for c in info.mro()], v.attr)
+                return t if t is not None else self.infer_field_type(info, v.attr, depth + 1)
+            if isinstance(v, _ast.Call):
+                f = v.func
+                if isinstance(f, _ast.Name):
+                    if f.id == "float":
+                        return T_FLOAT
+                    if f.id in ("int", "len"):
+                        return T_INT
+                    if self.explorer.class_index(f.id) is not None:
+                        return Ty("ref", name=f.id)
+                if isinstance(f, _ast.Attribute) and isinstance(f.value, _ast.Name):
+                    ci = self.explorer.class_index(f.value.id)
+                    if ci is not None:
+                        owner, m = ci.find_method(f.attr)
+                        if m is not None and m.returns is not None:
+                            try:
+                                t = parse_type(_ast.unparse(m.returns))
+                            except VerifError:
+                                return None
+                            return t if t.kind in ("float", "int", "bool", "ref") else None
+            return None
         for c in info.mro():
             for fn in c.methods.values():
                 for node in _ast.walk(fn):
-                    if isinstance(node, _ast.Assign) and len(node.targets) == 1:
-                        t = node.targets[0]
-                        if isinstance(t, _ast.Attribute) and t.attr == field and isinstance(t.value, _ast.Name) \
-                                and t.value.id == "self":
-                            v = node.value
-                            if isinstance(v, _ast.Constant):
-                                if isinstance(v.value, bool):
-                                    return T_BOOL
-                                if isinstance(v.value, float):
-                                    return T_FLOAT
-                                if isinstance(v.value, int):
-                                    return T_INT
-                            if isinstance(v, _ast.List) and not v.elts:
-                                return Ty("list", [T_ANY])
-                            if isinstance(v, _ast.UnaryOp) and isinstance(v.operand, _ast.Constant) and \
-                                    isinstance(v.operand.value, float):
-                                return T_FLOAT
-        return None
+                    if isinstance(node, (_ast.Assign, _ast.AugAssign)):
+                        targets = node.targets if isinstance(node, _ast.Assign) else [node.target]
+                        for t in targets:
+                            if isinstance(t, _ast.Attribute) and t.attr == field and isinstance(t.value, _ast.Name) \
+                                    and t.value.id == "self":
+                                if isinstance(node.value, _ast.Constant) and node.value.value is None:
+                                    saw_none = True
+                                    continue
+                                ty = static_type(node.value, fn)
+                                if ty is not None:
+                                    found.append(ty)
+        if not found:
+            return None
+        ty = found[0]
+        for o in found[1:]:
+            if o != ty:
+                if {o.kind, ty.kind} == {"int", "float"}:
+                    ty = T_FLOAT
+                else:
+                    return None
+        if saw_none and ty.kind in ("ref", "list"):
+            return Ty("opt", [ty])
+        return ty
 
     # ------------------------------------------------------------------ arithmetic
     def arith(self, op, a, b, spec):
